@@ -1,7 +1,14 @@
 """Source database: parses the real files under REPO on every run; nothing is cached across runs.
 
 Extraction drops exactly: docstrings and comments (ast does), `__all__`, and `QUBOVertWarning.warn(msg)` calls
-(turned into writes to the ghost list `warned` by the interpreter)."""
+(turned into writes to the ghost list `warned` by the interpreter; the statement
+`if not suppress_warnings: QUBOVertWarning.warn("<literal>")` writes the literal to `warned` whatever the flag is,
+i.e. `warned` records what the library determined, not whether the caller asked to hear it).
+
+What is NOT the code that runs is refused instead of dropped: a def with a decorator other than staticmethod /
+classmethod / property / .setter, a function or class name re-bound at module level, a method name re-bound in the
+class body or assigned from outside (`Cls.m = ...`, `setattr(Cls, "m", ...)`) is marked `_qvc_rebound`; executing or
+using the contract of such a function raises Unsupported, so it and its callers leave reach."""
 import ast
 import hashlib
 import os
